@@ -396,6 +396,21 @@ impl Sim {
                 Ok(())
             }
             Event::Check => self.check_state(i),
+            Event::TxnBurst(n) => {
+                for j in 0..*n {
+                    let k = 1_000_000 + j;
+                    if self.eng.begin(k).is_err() {
+                        return Err(self.viol("O-res", i, format!("opening empty transaction #{j} failed")));
+                    }
+                    let out = if j % 3 == 2 { self.eng.commit(k) } else { self.eng.abort(k) };
+                    if out.is_err() {
+                        return Err(self.viol("O-res", i, format!("ending empty transaction #{j} failed: {}", out.short())));
+                    }
+                }
+                self.stats.log(format!("{i} {} => ok", ev.short()));
+                self.stats.add("empty_transactions", *n as u64);
+                Ok(())
+            }
         }
     }
 
